@@ -247,6 +247,16 @@ impl Read for PendRead {
         }
         Pin::new(&mut this.inner).poll_read(cx, buf)
     }
+    fn poll_read_vectored(self: Pin<&mut Self>, cx: &mut Context<'_>, bufs: &mut [std::io::IoSliceMut<'_>]) -> Poll<std::io::Result<usize>> {
+        let this = self.get_mut();
+        if pend_gate(&mut this.left, &this.ctl, cx) {
+            return Poll::Pending;
+        }
+        if let Some(e) = this.ctl.fault() {
+            return Poll::Ready(Err(e));
+        }
+        Pin::new(&mut this.inner).poll_read_vectored(cx, bufs)
+    }
 }
 
 impl Seek for PendRead {
@@ -275,6 +285,16 @@ impl Write for PendWrite {
             return Poll::Ready(Err(e));
         }
         Pin::new(&mut this.inner).poll_write(cx, buf)
+    }
+    fn poll_write_vectored(self: Pin<&mut Self>, cx: &mut Context<'_>, bufs: &[std::io::IoSlice<'_>]) -> Poll<std::io::Result<usize>> {
+        let this = self.get_mut();
+        if pend_gate(&mut this.left, &this.ctl, cx) {
+            return Poll::Pending;
+        }
+        if let Some(e) = this.ctl.fault() {
+            return Poll::Ready(Err(e));
+        }
+        Pin::new(&mut this.inner).poll_write_vectored(cx, bufs)
     }
     fn poll_flush(self: Pin<&mut Self>, cx: &mut Context<'_>) -> Poll<std::io::Result<()>> {
         let this = self.get_mut();
@@ -736,7 +756,21 @@ impl AExec {
                     let r: std::io::Result<u64> = match s {
                         WStep::Write(pl) => {
                             let b = pl.bytes();
-                            h.write_all(&b).await.map(|_| b.len() as u64)
+                            let mut done = 0usize;
+                            let mut first: std::io::Result<()> = Ok(());
+                            if crate::ops::vectored_now() && !b.is_empty() {
+                                // one vectored call first, the rest through plain writes
+                                let mid = b.len() / 3;
+                                let sl = [std::io::IoSlice::new(&b[..mid]), std::io::IoSlice::new(&[]), std::io::IoSlice::new(&b[mid..])];
+                                match h.write_vectored(&sl).await {
+                                    Ok(k) => done = k.min(b.len()),
+                                    Err(e) => first = Err(e),
+                                }
+                            }
+                            match first {
+                                Ok(()) => h.write_all(&b[done..]).await.map(|_| b.len() as u64),
+                                Err(e) => Err(e),
+                            }
                         }
                         WStep::Seek(..) => Err(std::io::Error::new(std::io::ErrorKind::Unsupported, "async write handles cannot seek")),
                         WStep::Flush => h.flush().await.map(|_| 0),
@@ -787,6 +821,19 @@ impl AExec {
                 self.slots.insert(*slot, ASlot::W(h));
                 Ok(Out::Unit)
             }
+            Op::HRead(slot, n) if read_exact_len(*n).is_some() => match self.slots.get_mut(slot) {
+                Some(ASlot::R(h)) => {
+                    let mut buf = vec![0u8; read_exact_len(*n).unwrap()];
+                    match h.read_exact(&mut buf).await {
+                        Ok(()) => Ok(Out::Read(buf)),
+                        Err(e) => {
+                            let _ = h.seek(std::io::SeekFrom::End(0)).await;
+                            Err(io_err_info(&e))
+                        }
+                    }
+                }
+                _ => Ok(Out::Unit),
+            },
             Op::HRead(slot, n) if *n == READ_TO_END => match self.slots.get_mut(slot) {
                 Some(ASlot::R(h)) => {
                     let mut buf = Vec::new();
@@ -801,7 +848,16 @@ impl AExec {
                     let mut buf = vec![0u8; *n];
                     let mut got = 0;
                     loop {
-                        let k = h.read(&mut buf[got..]).await.map_err(|e| io_err_info(&e))?;
+                        let k = if crate::ops::vectored_now() {
+                            let rest = &mut buf[got..];
+                            let mid = rest.len() / 3;
+                            let (a, b) = rest.split_at_mut(mid);
+                            let mut sl = [std::io::IoSliceMut::new(a), std::io::IoSliceMut::new(b)];
+                            h.read_vectored(&mut sl).await
+                        } else {
+                            h.read(&mut buf[got..]).await
+                        }
+                        .map_err(|e| io_err_info(&e))?;
                         got += k.min(*n - got);
                         if k == 0 || got >= *n {
                             break;
@@ -819,7 +875,27 @@ impl AExec {
             Op::HWrite(slot, pl) => match self.slots.get_mut(slot) {
                 Some(ASlot::W(h)) => {
                     let b = pl.bytes();
-                    h.write_all(&b).await.map(|_| Out::Num(b.len())).map_err(|e| io_err_info(&e))
+                    if crate::ops::IO_STYLE.with(|c| c.get()) == 1 {
+                        // write_all semantics, every other call vectored (three slices, the middle one empty)
+                        let mut rest: &[u8] = &b;
+                        while !rest.is_empty() {
+                            let k = if crate::ops::vectored_now() {
+                                let mid = rest.len() / 3;
+                                let sl = [std::io::IoSlice::new(&rest[..mid]), std::io::IoSlice::new(&[]), std::io::IoSlice::new(&rest[mid..])];
+                                h.write_vectored(&sl).await
+                            } else {
+                                h.write(rest).await
+                            }
+                            .map_err(|e| io_err_info(&e))?;
+                            if k == 0 || k > rest.len() {
+                                return Err(ErrInfo { class: ErrClass::Other, path: String::new(), display: format!("write returned {} for {} bytes", k, rest.len()), io_only: true });
+                            }
+                            rest = &rest[k..];
+                        }
+                        Ok(Out::Num(b.len()))
+                    } else {
+                        h.write_all(&b).await.map(|_| Out::Num(b.len())).map_err(|e| io_err_info(&e))
+                    }
                 }
                 _ => Ok(Out::Unit),
             },
